@@ -2,6 +2,7 @@
 import itertools
 import json
 import os
+import re
 import subprocess
 import sys
 
@@ -156,6 +157,14 @@ class _Sources(dict):
 SOURCES = _Sources(SOURCES)
 
 
+_UNIT_RE = re.compile(r"^(?:module|program|subroutine|function|submodule\s*\([^)]*\)|block\s*data)\s+(\w+)", re.I)
+
+
+def own_unit_names(src):
+    """names of the top-level program units of a source (unit statements written without indentation)"""
+    return [m.group(1).lower() for m in (_UNIT_RE.match(l) for l in src.split("\n")) if m]
+
+
 def observe(p, src, kw):
     """parse src with parser p; returns (kind, canonical repr, canonical str)"""
     import fp
@@ -187,13 +196,22 @@ def run_history(arg):
             if p is None:
                 p = ParserFactory().create(std="f2003")
             before = fp.tables_str()
+            before_names = [str(k).lower() for k in fp.SYMBOL_TABLES._symbol_tables.keys()]
             r = observe(p, SOURCES[op[1]], kw)
             if r[0] != "tree":
                 if fp.SYMBOL_TABLES.current_scope is not None:
                     leaks.append((op[1], "scope left open: %s" % fp.SYMBOL_TABLES.current_scope.name))
                 elif fp.tables_str() != before:
-                    b, a = set(before.split(",")) - {""}, set(fp.tables_str().split(",")) - {""}
-                    tag = "removes_preexisting_table" if a < b else "changes_tables"
+                    after_names = [str(k).lower() for k in fp.SYMBOL_TABLES._symbol_tables.keys()]
+                    removed = [n for n in before_names if n not in after_names]
+                    added = [n for n in after_names if n not in before_names]
+                    own = own_unit_names(SOURCES[op[1]])
+                    if removed and not added and all(n in own for n in removed):
+                        tag = "removes_preexisting_table_same_name"      # recorded finding
+                    elif removed:
+                        tag = "removes_unrelated_table"
+                    else:
+                        tag = "changes_tables"
                     leaks.append((tag + ":" + op[1], "tables changed by failed parse: %r -> %r" % (before, fp.tables_str())))
     final = observe(p, SOURCES[xname], kw)
     return dict(final=final, leaks=leaks)
@@ -320,10 +338,10 @@ def run(ctx):
                              dict(rep, observed=r["final"][:2], expected=ref[:2])))
         for nm, what in r["leaks"]:
             nfail_parse += 1
-            if nm == "removes_preexisting_table:I3":
-                # recorded finding: the failing top-level unit of I3 has the name of the table it removes
+            if nm.startswith("removes_preexisting_table_same_name:"):
+                # recorded finding: the failing top-level unit has the name of the table it removes
                 failures.append(("failed_parse_removes_preexisting_table_of_same_name", what, rep))
-            elif nm.startswith("removes_preexisting_table:"):
+            elif nm.startswith("removes_unrelated_table:"):
                 failures.append(("failed_parse_removes_unrelated_table:" + nm.split(":", 1)[1], what, rep))
             else:
                 failures.append(("failed_parse_leaves_state:" + nm, what, rep))
